@@ -64,6 +64,7 @@ func NewWorld(out io.Writer) *World {
 	st.Register(gvkSecret, true, false)
 	st.Register(gvkNamespace, false, true)
 	st.Register(gvkWidget, true, false)
+	st.AlsoServe(gvkWidget.GroupKind().WithVersion("v2"), true) // a second served version of the same resource
 	st.Register(gvkClusterThing, false, false)
 	w.Client = w.NewClient(w.Scheme, "client")
 	w.Uncached = w.NewClient(w.Scheme, "uncached")
